@@ -65,6 +65,8 @@ func c15Gen(tier string, emit func(c15Case)) {
 			emit(c15Case{Kind: "build", Template: t, Style: st, Reg: "twin-before"})
 			// a caching router that has already answered "no route" for every URL it will build, before the route exists
 			emit(c15Case{Kind: "build", Template: t, Style: st, Reg: "late-after-miss"})
+			// a caching router with room for two entries only: all URLs are built and requested in two passes
+			emit(c15Case{Kind: "build", Template: t, Style: st, Reg: "tiny-cache-two-passes"})
 		}
 	}
 	// naming: all sequences of <= 3 operations over 2 names x 3 APIs
@@ -194,6 +196,9 @@ func c15Run(c c15Case, st *fw.Stats) []fw.Viol {
 	if c.Reg == "late-after-miss" {
 		r = rux.New(rux.CachingWithNum(64))
 	}
+	if c.Reg == "tiny-cache-two-passes" {
+		r = rux.New(rux.CachingWithNum(2))
+	}
 	th := func(ctx *rux.Context) {
 		seenIdx = 0
 		seenParams = map[string]string{}
@@ -254,7 +259,9 @@ func c15Run(c c15Case, st *fw.Stats) []fw.Viol {
 				spelled = strings.Replace(spelled, m[0], cur[k], 1)
 			}
 			_ = try(func() { r.Match("GET", spelled) })
-			_ = try(func() { r.ServeHTTP(httptest.NewRecorder(), &http.Request{Method: "GET", URL: &url.URL{Path: spelled}, Header: http.Header{}, Host: "h"}) })
+			_ = try(func() {
+				r.ServeHTTP(httptest.NewRecorder(), &http.Request{Method: "GET", URL: &url.URL{Path: spelled}, Header: http.Header{}, Host: "h"})
+			})
 		}
 		pre(0)
 		r.AddNamed("target", c.Template, th, "GET")
@@ -382,6 +389,9 @@ func c15Run(c c15Case, st *fw.Stats) []fw.Viol {
 		}
 	}
 	rec(0)
+	if c.Reg == "tiny-cache-two-passes" {
+		rec(0) // every URL again, after all the others pushed it out of the cache
+	}
 	if st.WantSample() {
 		st.Sample(map[string]any{"template": c.Template, "style": c.Style, "values": c15Values, "extras": len(c15Extras)})
 	}
@@ -391,7 +401,7 @@ func c15Run(c c15Case, st *fw.Stats) []fw.Viol {
 var c15Spec = fw.Spec[c15Case]{
 	ID:    "C15",
 	Level: "model_checking",
-	Rule: "complete product: 17 named templates (static, leading variable next to dynamic decoys whose literal first segment is one of the values, default / custom / global variable regexes, 1-3 variables, literal prefix and suffix around a variable, '.' in the literal text) x ALL value tuples over 19 values (spaces, non-ASCII, %, ?, #, ;, encoded slash, dots, slash where the regex admits it) that satisfy the variables' regexes x 4 argument styles (M map, key/value pairs, BuildRequestURL builder, one builder object reused across routes) x 5 registrations (on a caching router that answered 'no route' for every URL before the route existed; top-level AddNamed; NewNamedRoute + ToURL() + AddRoute inside a group; named after registration with NamedTo; after a POST route with the same skeleton and variable names but other variable regexes) x 4 sets of extra query arguments; " +
+	Rule: "complete product: 17 named templates (static, leading variable next to dynamic decoys whose literal first segment is one of the values, default / custom / global variable regexes, 1-3 variables, literal prefix and suffix around a variable, '.' in the literal text) x ALL value tuples over 19 values (spaces, non-ASCII, %, ?, #, ;, encoded slash, dots, slash where the regex admits it) that satisfy the variables' regexes x 4 argument styles (M map, key/value pairs, BuildRequestURL builder, one builder object reused across routes) x 6 registrations (on a caching router with two cache slots, every URL built and requested in two passes; on a caching router that answered 'no route' for every URL before the route existed; top-level AddNamed; NewNamedRoute + ToURL() + AddRoute inside a group; named after registration with NamedTo; after a POST route with the same skeleton and variable names but other variable regexes) x 4 sets of extra query arguments; " +
 		"each built URL is matched (Match on u.Path) and requested (ServeHTTP on a request parsed from u.String()); naming: all sequences of <=3 (thorough 4) naming operations over 2 names x {AddNamed, NewNamedRoute+AddRoute, route.NamedTo on a new route, NamedTo renaming the first / the previous route}; non-trivial = a template with variables / a sequence of >=2 naming operations",
 	Assume: []string{"values containing '{' or '}' are excluded: Build substitutes in Go map order, which the harness cannot own", "routes without optional parts, as the statement says", "value tuples that spell a path which is not in normal form (white space or '/' at the very end) are skipped: path normalisation (C11) ignores those characters by design"},
 	Bounds: func(tier string) map[string]any {
